@@ -865,3 +865,53 @@ theorem pipeline_table_ok (K : Nat) (hK : 1 ≤ K) (reads : List (Seq × Exts ×
   exact ⟨wf_perm st _ T K hp w1, extSym_perm st _ T K hp w1 s1⟩
 
 end Filter
+
+namespace Filter
+open Compress (Seq Base Exts Entry extend)
+open Walk (Dir)
+
+/-- **`remove_censored_exts` is exact**: same keys and payloads, and a recorded extension survives iff its target
+    is a valid k-mer -/
+theorem removeCensored_exact {D : Type} (st : Bool) (T : List (Entry D)) :
+    (removeCensoredExts st T).length = T.length ∧
+    ∀ (x : Nat) (e1 : Entry D), (removeCensoredExts st T)[x]? = some e1 → ∃ e0 : Entry D, T[x]? = some e0 ∧ e1.key = e0.key ∧ e1.data = e0.data ∧
+      e1.exts.val < 256 ∧
+      ∀ d b, has e1.exts d b ↔ has e0.exts d b ∧ extTarget st e0.key b d ∈ T.map (·.key) := by
+  refine ⟨by simp [removeCensoredExts], fun x e1 h => ?_⟩
+  obtain ⟨e0, h0, hk, hd, he⟩ := removeCensored_getElem? st T x e1 h
+  refine ⟨e0, h0, hk, hd, by rw [he]; exact keepBits_lt _ _, fun d b => ?_⟩
+  rw [he, has_keepBits]
+  simp only [List.contains_eq_mem, decide_eq_true_eq]
+
+/-- **`remove_censored_exts_sharded` is exact**: an extension is dropped iff its target is a k-mer that was seen
+    (`all_kmers`) but is not valid -/
+theorem removeCensoredSharded_exact {D : Type} (st : Bool) (T : List (Entry D)) (all : List Seq) :
+    (removeCensoredExtsSharded st T all).length = T.length ∧
+    ∀ (x : Nat) (e1 : Entry D), (removeCensoredExtsSharded st T all)[x]? = some e1 → ∃ e0 : Entry D, T[x]? = some e0 ∧ e1.key = e0.key ∧ e1.data = e0.data ∧
+      ∀ d b, has e1.exts d b ↔ has e0.exts d b ∧
+        ¬ (extTarget st e0.key b d ∉ T.map (·.key) ∧ extTarget st e0.key b d ∈ all) := by
+  refine ⟨by simp [removeCensoredExtsSharded], fun x e1 h => ?_⟩
+  unfold removeCensoredExtsSharded at h
+  rw [List.getElem?_map] at h
+  cases h0 : T[x]? with
+  | none => rw [h0] at h; cases h
+  | some e0 =>
+    rw [h0] at h; cases h
+    refine ⟨e0, rfl, rfl, rfl, fun d b => ?_⟩
+    show has (keepBits e0.exts _) d b ↔ _
+    rw [has_keepBits]
+    simp only [List.contains_eq_mem, Bool.not_eq_true', Bool.and_eq_false_imp, Bool.not_eq_eq_eq_not, Bool.not_true,
+      decide_eq_false_iff_not, decide_eq_true_eq, Bool.not_and]
+    constructor
+    · rintro ⟨h1, h2⟩
+      refine ⟨h1, fun ⟨h3, h4⟩ => ?_⟩
+      simp [h3, h4] at h2
+    · rintro ⟨h1, h2⟩
+      refine ⟨h1, ?_⟩
+      by_cases h3 : extTarget st e0.key b d ∈ T.map (·.key)
+      · simp [h3]
+      · by_cases h4 : extTarget st e0.key b d ∈ all
+        · exact absurd ⟨h3, h4⟩ h2
+        · simp [h3, h4]
+
+end Filter
